@@ -505,7 +505,7 @@ def shard_fn(shard, nshards, seed, tier, exe, nhist):
             cases.append((cid, cmds))
             meta[cid] = exp
             sh.count("many_owner_histories")
-    results, crashes = core.run_script(exe, cases, tag="c05")
+    results, crashes = core.run_script(exe, cases, tag="c05", env=core.ambient_env(sh, shard))
     cmdmap = dict(cases)
     for cr in crashes:
         kind, frame = cr.summary()
